@@ -52,6 +52,8 @@ VARIANTS = {
     # well-formed markup AND a character XML cannot represent: html2stan raises, the callers fall back
     # (payload class "xmlbreak" of Escape.tla); a fallback that forgets to escape would let the markup through
     "xmlbreak": MARK + "<i/><b>\"'&lt;</b>&#60;\uffff" + END,
+    # entity look-alikes only: parsed raw they are silently decoded - no element appears, the text just changes
+    "entities": MARK + "&lt;i&gt;&amp;lt;" + END,
 }
 # judged on the pages, not compared with the model: U+00A0 only breaks the routes through docutils (it becomes the
 # undefined entity &nbsp;), form feed is a word separator for half of the parsers
@@ -125,7 +127,7 @@ def fname(p: str) -> str:
 PYVAL_KINDS = ["strconst", "default", "annotation", "decoarg", "baseexpr", "typealias"]
 KINDS = (["modname"] + [f"doc.{f}" for f in DOCFORMATS] + [f"field.{f}" for f in DOCFORMATS if f != "plaintext"]
          + ["xref.epytext", "xref.restructuredtext", "doctest.epytext", "doctest.restructuredtext"]
-         + PYVAL_KINDS + ["deprecated", "projname", "projurl"])
+         + PYVAL_KINDS + ["deprecated", "imagealt", "projname", "projurl"])
 
 
 def payload_for(kind: str, p: str) -> str:
@@ -193,6 +195,11 @@ def gen(kind: str, p: str) -> Dict[str, Any]:
             "typealias": f'Alias: typing.TypeAlias = typing.Dict[str, Literal[{R}]]\n"""Doc of alias."""\nAlias2 = typing.Union[Literal[{R}], int]\n"""Doc."""\n',
         }[kind]
         files["zpkg/amod.py"] = pre + body
+    elif kind == "imagealt":
+        # :alt: text of images in a reST docstring: attribute of <img>, content of <object> for .svg & co
+        args += ["--docformat", "restructuredtext"]
+        d = f"Module.\n\n.. image:: picture.svg\n   :alt: {p}\n\n.. image:: picture.png\n   :alt: {p}\n\nEnd."
+        files["zpkg/amod.py"] = _escape_docstring_source(_ds(d, 0) + "class Dcls:\n" + _ds(d, 4))
     elif kind == "deprecated":
         # extensions/deprecate.py interpolates the replacement= string into reST source
         files["zpkg/amod.py"] = ('"""Module."""\nfrom twisted.python.deprecate import deprecated\nfrom incremental import Version\n'
@@ -257,8 +264,12 @@ def unesc(s: str, k: int) -> str:
 _TAG = re.compile(r"<[^<>]*>")
 
 
+NOT_INTACT = -9
+
+
 def levels_in(s: str, fs: Sequence[str], base: int = 0, url: bool = False, markup: bool = False) -> List[int]:
-    """Escape level of every occurrence of the marker in s (-1 = the canary is not intact there).
+    """Escape level of every occurrence of the marker in s (NOT_INTACT = the canary is not intact there; base - 1 = the
+    text is one level BELOW: its entity look-alikes have been decoded, escaping it once gives the canary back).
     A canary cut off by the end of s (summaries stop at '!') still has a level.  markup=True: s is an HTML string,
     inline tags put around pieces of the text by colorizers are looked through."""
     out = []
@@ -267,7 +278,7 @@ def levels_in(s: str, fs: Sequence[str], base: int = 0, url: bool = False, marku
     while i != -1:
         win = s[i:i + w]
         at_end = i + w >= len(s)
-        lv = -1
+        lv = NOT_INTACT
         for k in range(0, 4):
             u = unesc(win, k)
             if any(u.startswith(f) for f in fs) or (url and any(unquote(u).startswith(f) for f in fs)):
@@ -276,11 +287,13 @@ def levels_in(s: str, fs: Sequence[str], base: int = 0, url: bool = False, marku
             if at_end and len(u) > len(MARK) and any(f.startswith(u.rstrip()) for f in fs):
                 lv = base + k
                 break
+        if lv == NOT_INTACT and any(html.escape(win, quote=False).startswith(f) and "&" in f for f in fs):
+            lv = base - 1
         out.append(lv)
         i = s.find(MARK, i + len(MARK))
-    if markup and -1 in out:
+    if markup and NOT_INTACT in out:
         alt = levels_in(_TAG.sub("", s), fs, base, url)
-        if alt and -1 not in alt:
+        if alt and NOT_INTACT not in alt:
             return alt
     return out
 
@@ -322,9 +335,9 @@ def stan_levels(stan: Any, fs: Sequence[str]) -> List[int]:
     for s in strs:
         if MARK in s:
             out += levels_in(s, fs)
-    if -1 in out:       # one text spread over several inline tags
+    if NOT_INTACT in out:       # one text spread over several inline tags
         alt = levels_in("".join(strs), fs)
-        if alt and -1 not in alt:
+        if alt and NOT_INTACT not in alt:
             return alt
     return out
 
@@ -465,9 +478,9 @@ def crawl(out: Path, fs: Sequence[str], want_skeleton_list: bool = False) -> Dic
                 if t and MARK in t:
                     lvs = levels_in(t, fs, base=1)
                     q = False
-                    if -1 in lvs and all(x == 1 for x in levels_in(t, fs, base=1, url=True)):
+                    if NOT_INTACT in lvs and all(x == 1 for x in levels_in(t, fs, base=1, url=True)):
                         lvs, q = [1] * len(lvs), True          # a URL shown as text (all-documents.html div.url)
-                    if -1 in lvs:
+                    if NOT_INTACT in lvs:
                         # the text may be spread over inline elements (colorizers): look at the enclosing blocks
                         for anc in reversed(elems[-3:]):
                             joined = levels_in("".join(anc.itertext()), fs, base=1)
@@ -551,6 +564,10 @@ def instrument(events: List[List[Any]], fs: Sequence[str]):
     patched: List[Tuple[Any, str, Any]] = []
 
     def rec(stage: str, lin: List[int], lout: List[int]) -> None:
+        if lin and len(lin) == len(lout):       # the occurrences keep their order through a stage: pair them
+            for a, b in sorted(set(zip(lin, lout))):
+                events.append([stage, a, b])
+            return
         for a in (sorted(set(lin)) or [-2]):
             for b in (sorted(set(lout)) or [-2]):
                 events.append([stage, a, b])
@@ -612,6 +629,142 @@ def instrument(events: List[List[Any]], fs: Sequence[str]):
     return undo
 
 
+# ------------------------------------------------------------------------------------- histories (PageHistory.tla)
+_LONG = "\n".join(f"Paragraph {i}: this sentence is only here to make the page longer than it will be later.\n" for i in range(30))
+HISTORY_VERSIONS = {
+    "long": {"hpkg/__init__.py": _ds("The package, long version.\n\n" + _LONG, 0),
+             "hpkg/mod.py": (_ds("A module with a lot of text.\n\n" + _LONG, 0)
+                             + "class Worker:\n" + _ds("A class with a lot of text.\n\n" + _LONG, 4)
+                             + "    def run(self, times=1):\n" + _ds("Run.\n\n" + _LONG, 8)
+                             + "    def stop(self):\n" + _ds("Stop.\n\n" + _LONG, 8)
+                             + "class Extra:\n" + _ds("Only in the long version.\n\n" + _LONG, 4)
+                             + "def helper_one():\n" + _ds("h1", 4) + "def helper_two():\n" + _ds("h2", 4))},
+    "short": {"hpkg/__init__.py": _ds("The package.", 0),
+              "hpkg/mod.py": (_ds("A module.", 0) + "class Worker:\n" + _ds("A class.", 4)
+                              + "    def run(self, times=1):\n" + _ds("Run.", 8))},
+}
+# PageHistory.tla's page numbers
+HISTORY_PAGES = {1: "index.html", 2: "hpkg.mod.html", 3: "hpkg.mod.Worker.html", 4: "hpkg.mod.Extra.html", 5: "nameIndex.html"}
+
+
+def run_history(job: Dict[str, Any]) -> Dict[str, Any]:
+    """Runs in a forked worker: Run(v1, out) ; Run(v2, out) ; ... with the real driver.main, then looks at every page."""
+    import contextlib
+    import shutil
+    base = Path(job["dir"])
+    if base.exists():
+        shutil.rmtree(base)
+    out = base / "out"
+    rcs: List[Any] = []
+    buf = io.StringIO()
+    cwd = os.getcwd()
+    old_epoch = os.environ.get("SOURCE_DATE_EPOCH")
+    os.environ["SOURCE_DATE_EPOCH"] = "1000000000"
+    try:
+        for n, v in enumerate(job["hist"]):
+            src = base / f"src{n}"
+            for rel, content in HISTORY_VERSIONS[v].items():
+                fp = src / rel
+                fp.parent.mkdir(parents=True, exist_ok=True)
+                fp.write_text(content, encoding="utf8")
+            os.chdir(src)
+            with contextlib.redirect_stdout(buf), contextlib.redirect_stderr(buf):
+                from pydoctor import driver
+                from pydoctor.templatewriter.pages.table import ChildTable
+                # the runs of a history are separate pydoctor invocations: the process-wide counter behind the
+                # id="idN" of the member tables starts at 0 in each (its leak between runs of one process is C18's)
+                ChildTable.last_id = 0
+                try:
+                    rcs.append(driver.main(["--html-output", str(out), "--quiet", "--project-name", "Hist", "hpkg"]))
+                except SystemExit as e:
+                    rcs.append(f"SystemExit({e.code})")
+                except BaseException as e:
+                    rcs.append(f"exception {type(e).__name__}: {e}")
+            os.chdir(cwd)
+    finally:
+        os.chdir(cwd)
+        if old_epoch is None:
+            os.environ.pop("SOURCE_DATE_EPOCH", None)
+        else:
+            os.environ["SOURCE_DATE_EPOCH"] = old_epoch
+    pages: Dict[str, Any] = {}
+    if out.exists():
+        for f in sorted(out.glob("*.html")):
+            raw = f.read_bytes()
+            info: Dict[str, Any] = {"size": len(raw), "sha": hashlib.sha256(raw).hexdigest(), "wellformed": True}
+            try:
+                ET.fromstring(_ILLEGAL_XML.sub("", raw.decode("utf8")).encode("utf8"))
+            except (ET.ParseError, UnicodeDecodeError) as e:
+                info.update({"wellformed": False, "error": str(e), "tail": raw[-160:].decode("utf8", "replace")})
+            pages[f.name] = info
+    shutil.rmtree(base, ignore_errors=True)
+    return {"hist": job["hist"], "rcs": rcs, "pages": pages, "log": buf.getvalue()[-800:]}
+
+
+CFG_HISTORY = """SPECIFICATION Spec
+CONSTANTS MaxRuns = {maxruns}
+          WriteMode = "{mode}"
+CONSTRAINT Emit
+INVARIANT WholePages
+INVARIANT LastRunFresh
+"""
+
+
+def check_histories(ctx: Ctx, pool: Any) -> None:
+    """spec -> code for PageHistory.tla: every history TLC prints is built for real into one output directory."""
+    r = ctx.tlc("PageHistory", CFG_HISTORY.format(maxruns=2 if ctx.quick else 3, mode="truncate"), workers=1, check=True, timeout=300)
+    if r.violated or not r.printed:
+        raise MachineryError(f"PageHistory.tla: {r.violated or 'no history printed'}")
+    recs = r.printed
+    jobs = [{"dir": str(ctx.scratch / ("hist_" + "_".join(x["hist"]))), "hist": x["hist"]} for x in recs]
+    results = pool.map(run_history, jobs, chunksize=1)
+    fresh = {tuple(x["hist"])[0]: x for x in results if len(x["hist"]) == 1}
+    for v, x in fresh.items():
+        if any(rc != 0 for rc in x["rcs"]) or not all(HISTORY_PAGES[p] in x["pages"] for p in HISTORY_PAGES if p != 4 or v == "long"):
+            raise MachineryError(f"fresh build of history version {v} failed: {x['rcs']} {x['log'][-300:]}")
+    for p, name in HISTORY_PAGES.items():          # the relation between the sizes the spec assumes
+        if p != 4 and not fresh["long"]["pages"][name]["size"] > fresh["short"]["pages"][name]["size"]:
+            raise MachineryError(f"history versions: {name} is not longer in the long version")
+    drift = 0
+    for rec, x in zip(recs, results):
+        ctx.traces += 1
+        hist = x["hist"]
+        if any(rc != 0 for rc in x["rcs"]):
+            raise MachineryError(f"history {hist}: pydoctor failed {x['rcs']} {x['log'][-300:]}")
+        for name, info in x["pages"].items():
+            if not info["wellformed"]:
+                ctx.violation({"invariant": "WellFormed", "origin": "history", "history": hist, "page": name,
+                               "observed": {k: info[k] for k in ("error", "tail", "size")},
+                               "fresh_size": fresh[hist[-1]]["pages"].get(name, {}).get("size"),
+                               "key": f"WellFormed:history:{'>'.join(hist)}"})
+        bad = {}
+        for p, name in HISTORY_PAGES.items():
+            seg = rec["pages"][p - 1]["segments"]
+            info = x["pages"].get(name)
+            if not seg:
+                if info is not None:
+                    bad[name] = {"model": "no such file", "real": "present"}
+            elif info is None:
+                bad[name] = {"model": seg, "real": "missing"}
+            elif len(seg) == 1 and info["sha"] != fresh[seg[0]["v"]]["pages"][name]["sha"]:
+                bad[name] = {"model": f"the page of a fresh build of version {seg[0]['v']}", "real_size": info["size"],
+                             "fresh_size": fresh[seg[0]["v"]]["pages"][name]["size"]}
+        for name, info in x["pages"].items():       # every page the last run writes, modelled or not
+            f = fresh[hist[-1]]["pages"].get(name)
+            if f is not None and f["sha"] != info["sha"] and name not in bad:
+                bad[name] = {"model": "equal to a fresh build of the last version", "real_size": info["size"], "fresh_size": f["size"]}
+        if bad:
+            drift += 1
+            ctx.drift_note({"origin": "history", "history": hist, "mismatch": bad})
+    ctx.sample({"origin": "history", "history": results[-1]["hist"], "pages": {k: v["size"] for k, v in results[-1]["pages"].items()}})
+    # model-level negative control: without truncation TLC must find the half-overwritten page
+    r2 = ctx.tlc("PageHistory", CFG_HISTORY.format(maxruns=2, mode="overwrite"), workers=1, timeout=300, count=False)
+    if "WholePages" not in r2.violated:
+        raise MachineryError("negative control: PageHistory.tla with WriteMode=overwrite does not violate WholePages")
+    ctx.extra["histories"] = {"enumerated": len(recs), "model_mismatches": drift, "max_runs": 2 if ctx.quick else 3,
+                              "negative_control_overwrite_violates": r2.violated}
+
+
 def make_pool(n: int):
     import pydoctor.driver  # noqa: F401  (imported before the fork so the workers start warm)
     return multiprocessing.get_context("fork").Pool(n, maxtasksperchild=40)
@@ -621,19 +774,45 @@ def make_pool(n: int):
 CFG_ENUM = """SPECIFICATION Spec
 CONSTANTS Source = "enum"
           DeprecateQuoting = "{quoting}"
+          ObjectAlt = "{objectalt}"
 CONSTRAINT EmitEnum
 INVARIANT {raw}
 INVARIANT {rst}
-INVARIANT SinkLevelOne
+INVARIANT {sink}
 INVARIANT WellTyped
 INVARIANT SameAsWalk
 """
 CFG_FILE = """SPECIFICATION Spec
 CONSTANTS Source = "file"
           DeprecateQuoting = "{quoting}"
+          ObjectAlt = "{objectalt}"
 CONSTRAINT EmitFile
 """
 KF_DEPRECATE = "deprecate-replacement-reparsed-as-rst"
+KF_OBJECT_ALT = "object-alt-copied-raw"
+# for `imagealt` only these payloads are compared with the model (raw copied markup turns into elements or XML errors)
+MODELLED_IMAGEALT = ("entities", "xmlbreak")
+
+
+def kf_object_alt_raw(w: Dict[str, Any]) -> bool:
+    """Known finding: the :alt: text of an image that docutils shows as <object> (.svg .swf .mp4 .webm .ogg) is copied
+    into the HTML unescaped (html4css1.visit_image) and then parsed by html2stan.  Matches ONLY violations of the source
+    kind `imagealt` for which html2stan was observed on level-0 text (a ParseXml event with level in 0)."""
+    if w.get("kind") != "imagealt" or w.get("invariant") not in ("SkeletonEqual", "SinkLevelOne", "CanaryAppears", "SinkLevelOne(TLC)"):
+        return False
+    if any(e[0] == "ParseXml" and e[1] == 0 for e in w.get("events", [])):
+        return True
+    # the canary was cut in pieces by the docstring parser (no level): the new elements sit inside the <object>
+    where = w.get("where") or {}
+    if w.get("invariant") != "SkeletonEqual":
+        return False
+    if any("object[" in x for x in where.get("with_canary", [])):
+        return True
+    # ... or, copied raw, they are not XML: html2stan raised for the canary only, its twin shows the <object>
+    return any(e[0] == "ParseXml" and e[2] == -3 for e in w.get("events", [])) \
+        and any("object[" in x for x in where.get("with_placeholder", []))
+
+
 MODELLED_LINESEP = ("cr", "fs", "gs", "rs", "nel", "ls", "ps")     # vt / ff additionally make html2stan raise
 
 
@@ -690,7 +869,7 @@ def judge_pair(canary: Dict[str, Any], plain: Dict[str, Any], strict_appears: bo
         if ck.get(k) != pk.get(k):
             bad.append({"invariant": "SkeletonEqual", "page": k,
                         "observed": {"with_canary": ck.get(k, "page missing"), "with_placeholder": pk.get(k, "page missing")}})
-    two = [o for o in canary["occ"] if o["level"] not in (1, -1)]
+    two = [o for o in canary["occ"] if o["level"] not in (1, NOT_INTACT)]
     for o in two[:3]:
         bad.append({"invariant": "SinkLevelOne", "page": o["page"], "observed": {k: o[k] for k in ("zone", "ctx", "attr", "level", "sample", "path")}})
     if strict_appears and not any(o["level"] == 1 for o in canary["occ"]):
@@ -727,8 +906,11 @@ def run(ctx: Ctx) -> int:
     # ---- spec -> code: every (kind, sink) pair of Escape.tla
     ctx.register_matcher(KF_DEPRECATE, kf_deprecate_reparsed)
 
-    def enumerate_model(quoting: str, count: bool = True):
-        rr = ctx.tlc("Escape", CFG_ENUM.format(quoting=quoting, raw="NeverParsedRawExceptKnown", rst="NeverReparsedAsMarkupExceptKnown"),
+    ctx.register_matcher(KF_OBJECT_ALT, kf_object_alt_raw)
+
+    def enumerate_model(mv: Tuple[str, str], count: bool = True):
+        rr = ctx.tlc("Escape", CFG_ENUM.format(quoting=mv[0], objectalt=mv[1], raw="NeverParsedRawExceptKnown",
+                                               rst="NeverReparsedAsMarkupExceptKnown", sink="SinkLevelOneExceptKnown"),
                      workers=4, check=True, coverage=ctx.quick and count, timeout=600, count=count)
         if not rr.printed:
             raise MachineryError("Escape.tla printed no (kind, sink) pair")
@@ -743,15 +925,18 @@ def run(ctx: Ctx) -> int:
             m["pairs"].append(pr)
         return rr, mdl
 
-    quoting = "newline_only"
-    r, model = enumerate_model(quoting)
+    # the transcription variants of the two known-finding sites; the first is the code as it is, the check uses the
+    # one the observations conform to
+    model_variants = [("all_separators", "raw"), ("all_separators", "encoded"), ("newline_only", "raw"), ("newline_only", "encoded")]
+    mv = model_variants[0]
+    r, model = enumerate_model(mv)
     pairs = r.printed
     ctx.exhaustive = True
     unknown = sorted({k for k, _ in model} - set(KINDS))
     if unknown:
         raise MachineryError(f"Escape.tla enumerates source kinds the harness cannot plant: {unknown}")
     kinds = [k for k in KINDS if (k, "plain") in model]
-    plan: List[Tuple[str, str, str, bool]] = [(k, v, p, True) for k in kinds for v, p in VARIANTS.items()]
+    plan: List[Tuple[str, str, str, bool]] = [(k, v, p, k != "imagealt" or v in MODELLED_IMAGEALT) for k in kinds for v, p in VARIANTS.items()]
     plan += [(k, v, p, False) for k in kinds for v, p in UNMODELLED_VARIANTS.items()]
     if "deprecated" in kinds:
         plan += [("deprecated", f"linesep-{n}", linesep_payload(c), n in MODELLED_LINESEP) for n, c in LINE_SEPARATORS.items()]
@@ -768,6 +953,12 @@ def run(ctx: Ctx) -> int:
     finally:
         pool.close()
         pool.join()
+    hist_pool = make_pool(4)
+    try:
+        check_histories(ctx, hist_pool)
+    finally:
+        hist_pool.close()
+        hist_pool.join()
     gen_errors = [x["generator_error"] for x in results if x.get("generator_error")]
     if gen_errors:
         raise MachineryError(f"generator produced invalid input: {gen_errors[:3]}")
@@ -799,7 +990,7 @@ def run(ctx: Ctx) -> int:
                 twin.append(None)
                 observed_records.append(None)
             continue
-        not_intact += sum(1 for o in can["occ"] if o["level"] == -1)
+        not_intact += sum(1 for o in can["occ"] if o["level"] == NOT_INTACT)
         cls = payload_class(can["payload"], k)
         for b in judge_pair(can, pla, strict_appears=modelled and bool(model.get((k, cls), {"sinks": set()})["sinks"])):
             if b["invariant"] == "SkeletonEqual":
@@ -810,7 +1001,7 @@ def run(ctx: Ctx) -> int:
         events = [list(e) for e in can["events"]]
         if modelled:
             twin.append("pending")
-            observed_records.append({"kind": k, "variant": v, "cls": cls, "sinks": [list(x) for x in sinks if x[3] != -1], "events": events})
+            observed_records.append({"kind": k, "variant": v, "cls": cls, "sinks": [list(x) for x in sinks if x[3] != NOT_INTACT], "events": events})
         if i % 11 == 0:
             ctx.sample({"kind": k, "variant": v, "payload": can["payload"], "sinks": sinks[:6], "events": events,
                         "pages": len(can["pages"]), "skeleton_equal": not any(b["invariant"] == "SkeletonEqual" for b in judge_pair(can, pla, False))})
@@ -829,16 +1020,16 @@ def run(ctx: Ctx) -> int:
 
     ndrift = lambda ds: sum(1 for d in ds if d and any(d.values()))
     twin = conform(model)
-    if any(d and any(d.values()) and o["kind"] == "deprecated" and o["cls"] == "linesep" for d, o in zip(twin, observed_records) if o):
-        # which transcription of the replacement= quoting does the code follow?  both live in the spec
-        r_alt, model_alt = enumerate_model("all_separators", count=False)
-        twin_alt = conform(model_alt)
-        if ndrift(twin_alt) < ndrift(twin):
-            quoting, model, twin, pairs = "all_separators", model_alt, twin_alt, r_alt.printed
-    ctx.extra["deprecate_quoting_variant_followed_by_code"] = quoting
+    if ndrift(twin):
+        for alt_mv in model_variants[1:]:
+            r_alt, model_alt = enumerate_model(alt_mv, count=False)
+            twin_alt = conform(model_alt)
+            if ndrift(twin_alt) < ndrift(twin):
+                mv, model, twin, pairs = alt_mv, model_alt, twin_alt, r_alt.printed
+    ctx.extra["model_variant_followed_by_code"] = {"DeprecateQuoting": mv[0], "ObjectAlt": mv[1]}
     # design level: the strict invariants on the model of the code as it is (never a verdict by itself)
-    strict = ctx.tlc("Escape", CFG_ENUM.format(quoting=quoting, raw="NeverParsedRaw", rst="NeverReparsedAsMarkup"), workers=1,
-                     timeout=600, count=False, extra=["-continue"])
+    strict = ctx.tlc("Escape", CFG_ENUM.format(quoting=mv[0], objectalt=mv[1], raw="NeverParsedRaw", rst="NeverReparsedAsMarkup",
+                                               sink="SinkLevelOne"), workers=1, timeout=600, count=False, extra=["-continue"])
     ctx.extra["design_level_invariants_violated"] = sorted(set(strict.violated))
     for d, o in zip(twin, observed_records):
         if o is None:
@@ -863,7 +1054,7 @@ def run(ctx: Ctx) -> int:
     twin = [twin[i] for i in keep]
     f = ctx.scratch / "observed.json"
     f.write_text(json.dumps(observed_records))
-    r2 = ctx.tlc("Escape", CFG_FILE.format(quoting=quoting), workers=1, env={"C10_OBSERVED": str(f)}, check=True, timeout=600)
+    r2 = ctx.tlc("Escape", CFG_FILE.format(quoting=mv[0], objectalt=mv[1]), workers=1, env={"C10_OBSERVED": str(f)}, check=True, timeout=600)
     got = {x["n"]: x for x in r2.printed}
     if len(got) != len(observed_records):
         raise MachineryError(f"TLC judged {len(got)} of {len(observed_records)} observed flows")
@@ -881,7 +1072,7 @@ def run(ctx: Ctx) -> int:
             # already reported from the pages unless the twin missed it
             lv = [s for s in o["sinks"] if s[3] != 1]
             ctx.violation({"invariant": "SinkLevelOne(TLC)", "kind": o["kind"], "variant": o["variant"], "payload": VARIANTS.get(o["variant"], ""),
-                           "observed": lv[:5], "key": f"SinkLevelOne:{o['kind']}::{o['variant']}"})
+                           "observed": lv[:5], "events": o["events"], "key": f"SinkLevelOne:{o['kind']}::{o['variant']}"})
         if not g["neverParsedRaw"]:
             ctx.notes.append(f"observed html2stan on level-0 text for {o['kind']}/{o['variant']} (verdict comes from the pages)")
         if g["sinksNotInModel"] or g["modelSinksNotSeen"] or g["stepsNotInModel"] or g["modelStepsNotSeen"]:
@@ -895,7 +1086,7 @@ def run(ctx: Ctx) -> int:
     broken[0]["sinks"][0][3] = 2
     broken[0]["events"].append(["ParseXml", 0, 0])
     f.write_text(json.dumps(broken))
-    r3 = ctx.tlc("Escape", CFG_FILE.format(quoting=quoting), workers=1, env={"C10_OBSERVED": str(f)}, check=True, count=False)
+    r3 = ctx.tlc("Escape", CFG_FILE.format(quoting=mv[0], objectalt=mv[1]), workers=1, env={"C10_OBSERVED": str(f)}, check=True, count=False)
     nc["tlc_rejects_corrupted_observation"] = (not r3.printed[0]["sinkLevelOne"]) and (not r3.printed[0]["neverParsedRaw"]) \
         and bool(r3.printed[0]["stepsNotInModel"])
     # a page in which the canary is written raw must be caught by the crawler (skeleton / well-formedness)
@@ -937,6 +1128,14 @@ def run(ctx: Ctx) -> int:
 def replay(ctx: Ctx, path: str) -> int:
     w = json.load(open(path))
     import pydoctor.driver  # noqa: F401
+    if w.get("origin") == "history":
+        x = run_history({"dir": str(ctx.scratch / "h"), "hist": w["history"]})
+        broken = sorted(n for n, i in x["pages"].items() if not i["wellformed"])
+        print("replay:", f"still violated: WellFormed {broken}" if broken else "holds now")
+        if broken:
+            print(f"VIOLATION property=C10 replay={path}")
+        ctx.cleanup()
+        return 1 if broken else 0
     kind, payload = w["kind"], w["payload"]
     c = {"dir": str(ctx.scratch / "c"), "kind": kind, "variant": w.get("variant", ""), "payload": payload, "role": "canary"}
     p = {"dir": str(ctx.scratch / "p"), "kind": kind, "variant": w.get("variant", ""), "payload": w.get("placeholder") or placeholder(payload), "role": "placeholder"}
